@@ -620,12 +620,20 @@ func runStress(b core.Batch, em *core.Emitter) {
 			em.Begin(id, nil)
 			r := core.NewRand(b.Seed, uint64(run), 0x12)
 			n := 3 + r.Intn(6)
-			srv, err := fixture.New(fixture.Options{})
+			srv, err := fixture.New(fixture.Options{Accounts: append(fixture.DefaultAccounts(), fixture.Account{Login: "mute", Name: "mute", Access: make([]byte, 8)})})
 			if err != nil {
 				em.Emit(core.Result{Case: id, Verdict: core.Inconclusive, Msg: err.Error()})
 				return
 			}
 			defer srv.Close()
+			// bystanders who may not read chat (so they are nobody's audience) connect first - they hold the lowest ids -
+			// and disconnect one after the other while the others are sending
+			var bystanders []*refclient.Client
+			for i := 0; i < 12; i++ {
+				if cl, err := refclient.LoginAs(srv, fmt.Sprintf("10.12.8.%d:1", i+1), "mute", "", fmt.Sprintf("B%d", i)); err == nil {
+					bystanders = append(bystanders, cl)
+				}
+			}
 			var cls []*refclient.Client
 			for i := 0; i < n; i++ {
 				cl, err := refclient.LoginAs(srv, fmt.Sprintf("10.12.9.%d:1", i+1), "admin", "", fmt.Sprintf("S%d", i))
@@ -666,12 +674,20 @@ func runStress(b core.Batch, em *core.Emitter) {
 					}
 				}(i)
 			}
+			wg.Add(1)
+			go func() {
+				defer wg.Done()
+				for _, b := range bystanders {
+					time.Sleep(300 * time.Microsecond)
+					b.Hangup()
+				}
+			}()
 			wg.Wait()
 			if !srv.Quiesce(refclient.Watchdog) {
 				em.Emit(core.Result{Case: id, Verdict: core.Inconclusive, Msg: "no quiescence"})
 				return
 			}
-			res := core.Result{Case: id, Class: fmt.Sprintf("stress/n%d/k%d", n, k), Verdict: core.Held, Obs: map[string]int{},
+			res := core.Result{Case: id, Class: fmt.Sprintf("stress/n%d/k%d", n, k), Verdict: core.Held, Obs: map[string]int{"bystanders_disconnecting_during_the_sends": len(bystanders)},
 				Sample: map[string]any{"clients": n, "private_members": k, "messages_per_sender": per}}
 			for ci, cl := range cls {
 				seen := map[string]int{}
